@@ -2,7 +2,8 @@
 C18, hyperlinks: the codecs with cells that carry a hyperlink (`Style.Hyperlink`, `Style.HyperlinkParams`).
 `EncodeCells` and `StyledString.Encode` write `tparm(osc8, linkPs, link)` (OSC 8) before a cell's grapheme when the URL
 differs from the previous cell's (`cursor.Hyperlink != next.Hyperlink`; `linkPs = ""` when the URL is empty), and end
-with `sgrReset` unless the cursor style — hyperlink fields included — is the zero value.  `ParseStyledString` ignores the
+with an OSC 8 that closes a hyperlink still open (since the `fix:` for F121) and `sgrReset` unless the cursor style —
+hyperlink fields included — is the zero value.  `ParseStyledString` ignores the
 OSC item (`case ansi.OSC: // TODO`); `NewStyledString` (since the `fix:` for F119) reads it into the hyperlink fields.
 The model's `Style` has no hyperlink fields; a cell here is a `Cell` plus its `Link`, and the consumers of
 `Model/SgrBytes.lean` return the `Cell` part.  Core Lean only.
@@ -53,7 +54,9 @@ def dropLinks : List LTok → List (Tok Seq Str)
 
 /-- Token level of `EncodeCells` / `Encode` on cells with hyperlinks. -/
 def encodeFromL (delta : Style → Style → List Seq) (cursor : Style) (cur : Link) : List LCell → List LTok
-  | [] => if cursor != {} || cur != {} then [.tok (.sgr sgrResetQ)] else []
+  | [] =>
+    (if cur.url != [] then [LTok.link (osc8Payload {})] else []) ++
+    (if cursor != {} || cur != {} then [.tok (.sgr sgrResetQ)] else [])
   | c :: cs =>
     (delta cursor c.cell.st).map (fun q => LTok.tok (.sgr q)) ++
     ((if cur.url != c.link.url then [LTok.link (osc8Payload c.link)] else []) ++
@@ -61,7 +64,9 @@ def encodeFromL (delta : Style → Style → List Seq) (cursor : Style) (cur : L
 
 /-- Byte level. -/
 def encodeFromBL (delta : Style → Style → Str) (cursor : Style) (cur : Link) : List LCell → Str
-  | [] => if cursor != {} || cur != {} then bytesOf Sequences.sgrReset else []
+  | [] =>
+    (if cur.url != [] then osc8Bytes {} else []) ++
+    (if cursor != {} || cur != {} then bytesOf Sequences.sgrReset else [])
   | c :: cs =>
     delta cursor c.cell.st ++
     ((if cur.url != c.link.url then osc8Bytes c.link else []) ++
@@ -69,6 +74,12 @@ def encodeFromBL (delta : Style → Style → Str) (cursor : Style) (cur : Link)
 
 def encodeCellsBL (legacy : Bool) (cs : List LCell) : Str := encodeFromBL (encodeDeltaB legacy) {} {} cs
 def ssEncodeBL (legacy : Bool) (cs : List LCell) : Str := encodeFromBL (ssDeltaB legacy) {} {} cs
+
+/-- Is a hyperlink open after these tokens (`ESC ] 8 ; ; ESC \` closes, any other OSC 8 opens)? -/
+def linkOpen : Bool → List LTok → Bool
+  | b, [] => b
+  | b, .tok _ :: r => linkOpen b r
+  | _, .link p :: r => linkOpen (decide (p ≠ osc8Payload {})) r
 
 /-- `NewStyledString` on tokens with hyperlinks: a link contributes no cell and leaves the modelled style alone;
     an SGR sequence with nothing at all after it is not processed. -/
